@@ -60,6 +60,40 @@ CLAIMS = {
   design_ref="DESIGN.md section 5, C19",
   note=_TB + "Weak-ordering interpreter sa/absint.py; stdlib codecs constants; datetime has microsecond resolution.",
   technique="static analysis: abstract interpretation over weak orderings (exhaustive), affine time forms, data-flow mapping lint, constant-table evaluation"),
+ "C10": dict(
+  text="NoLoans raises on every path; the lending strategy is consulted before balances are touched; the margin rule is "
+       "installed unconditionally and AccountBalances.update runs every rule on the post-update maps before the commit; "
+       "positive borrowed updates exist only in LoanManager.create_loan and both borrowing paths reach it; the raise guard "
+       "of the margin rule is evaluated on every threshold cell of the computed range [0, inf) (sign analysis of the equity "
+       "sum) and on the 'nothing borrowed' sentinel; early exits of the rule are tabulated over the orderings of "
+       "(updated, committed) borrowed amounts: none may be taken when a borrowed amount grows. The valuation arithmetic "
+       "(equity, used margin at last prices) is not claimed.",
+  design_ref="DESIGN.md section 5, C10",
+  note=_TB + "Positive prices; the denominator of the level is positive when something is borrowed.",
+  technique="static analysis: threshold-cell evaluation of guards, sign analysis, CFG dominance, who-may-write"),
+ "C16": dict(
+  text="Byte equality of signed and sent content is reduced to encoder identity: for query and body of each signed channel the "
+       "encoder applied for the signature and the one applied by the transport must be the same function on the same "
+       "variable (transport table: FormData/data= -> urlencode, params= -> yarl quoter, yarl.URL(encoded=True) -> identity; "
+       "the FormData fact is re-read from the installed aiohttp source); Bitstamp never combines a query with authentication. "
+       "Ordering on the CFG (private copy, clock timestamp before signing, signature last, key header on every signing "
+       "path over the 4 flag combinations, fresh uuid4 nonce), Bitstamp v2 message order and HMAC-SHA256 hex, security type "
+       "of 40+ endpoints against a table transcribed from the API documentation. Clock skew and non-default Host ports are "
+       "not claimed.",
+  design_ref="DESIGN.md section 5, C16",
+  note=_TB + "aiohttp/yarl transport facts; documentation tables in sa/rules/c16.py and c17.py.",
+  technique="static analysis: sign-what-you-send encoder-identity rule, CFG ordering rules, spec tables"),
+ "C17": dict(
+  text="Every value entering a request map of either client is typed by mypy; Decimal-typed values must be rendered "
+       "fixed-point (format(x,'f')) -- str(), float(), spec-less or rounding f-string fields, '%'/'{}'.format and raw "
+       "Decimals are violations; still-Optional values may only enter through the None-dropping helper; (verb, path, "
+       "security) of every client method, side/action/type strings and symbol helpers are compared with tables transcribed "
+       "from the exchanges' documentation; inbound Decimal wrappers never go through float, order-status tables match the "
+       "documented statuses, ms timestamps decode to tz-aware UTC. JSON numbers decoded as float before any wrapper sees "
+       "them (candidate F-C17-2) and float-division exactness of timestamps are not claimed.",
+  design_ref="DESIGN.md section 5, C17",
+  note=_TB + "mypy's inferred types of request-map values; documentation tables in sa/rules/c17.py.",
+  technique="static analysis: type-resolved formatting lint (mypy), spec tables, data-flow mapping lint"),
 }
 
 NOT_APPLICABLE = {}
